@@ -19,9 +19,11 @@ commits), over any linearly ordered field `α` — the same definitions the driv
   the two multipliers of the nu dual are `r ± rho`;
 * publication glue: the regression fold `α_i - α_{i+m}`, support-vector count and `weighted_sum` pairing.
 
+* the whole main loop (`solve_loop_feasible`): selection, step, shrinking with its swaps, gradient
+  reconstruction and re-activation keep the point in the box with the initial `Σ y α`, for every fuel.
+
 Not proved (correspondence / oracle only): termination, optimality of the selected pair, that the
-final point is a KKT point, that the shrinking loops keep feasibility (they only permute, see
-`swap_preserves_aligned`; checked after every scripted step).  IEEE rounding is outside these statements.
+final point is a KKT point.  IEEE rounding is outside these statements.
 -/
 namespace LinfaSpec.Props.C13
 open LinfaSpec.Smo
@@ -164,6 +166,30 @@ theorem selected_pair_valid (e : Env α) (s : St α) (i j : Nat)
 violator is position 0, its partner position 1 -/
 example : selectWorkingSet exEnv exSt = (0, 1, false) := by
   decide +kernel
+
+
+/-- **feasibility is an invariant of the whole main loop of `solve`** — working-set selection (plain or
+nu form), the two-variable step, `do_shrinking(_nu)` with its swaps, `reconstruct_gradient` and the
+re-activation before the final check, for every fuel (iteration bound), kernel, tolerance and
+shrinking setting: the state the loop stops in is inside the box, has the initial `Σ y α` and the
+size of the problem.  Hypotheses = what `SolverState::new` establishes for a feasible start. -/
+theorem solve_loop_feasible (e : Env α) (shrinking : Bool) (fuel : Nat) (s : St α) (iter counter : Nat)
+    (hb : Box s) (hy : s.y.length = s.alpha.length) (hn : s.nactive ≤ s.alpha.length) :
+    Box (solveLoop e shrinking fuel s iter counter).1 ∧
+    ySum (solveLoop e shrinking fuel s iter counter).1 = ySum s ∧
+    (solveLoop e shrinking fuel s iter counter).1.alpha.length = s.alpha.length := by
+  have h := solveLoop_feas s.alpha.length (ySum s) e shrinking fuel s iter counter ⟨hb, hy, rfl, hn, rfl⟩
+  exact ⟨h.1, h.2.2.2.2, h.2.2.1⟩
+
+example : Box exSt ∧ exSt.y.length = exSt.alpha.length ∧ exSt.nactive ≤ exSt.alpha.length :=
+  ⟨exSt_box, by decide, by decide⟩
+
+/-- **`do_shrinking` (plain and nu form) keeps the point feasible**: it only permutes positions. -/
+theorem shrinking_preserves_feasible (e : Env α) (s : St α)
+    (hb : Box s) (hy : s.y.length = s.alpha.length) (hn : s.nactive ≤ s.alpha.length) :
+    Box (doShrinking e s) ∧ ySum (doShrinking e s) = ySum s := by
+  have h := doShrinking_feas s.alpha.length (ySum s) e s ⟨hb, hy, rfl, hn, rfl⟩
+  exact ⟨h.1, h.2.2.2.2⟩
 
 /-- **under `nu_constraint` both selected variables belong to one class** -/
 theorem nu_selected_pair_same_class (e : Env α) (s : St α) (i j : Nat)
